@@ -17,15 +17,17 @@ type MethodOption struct {
 func methodOption(args slip.List, p *slip.Printer) Node {
 	var mo MethodOption
 	// expect name [qualifier] specifiers [doc] forms*
-	if sym, _ := args[0].(slip.Symbol); 0 < len(sym) {
+	if sym, _ := args[0].(slip.Symbol); 0 < len(sym) && 1 < len(args) {
 		mo.qual = &Leaf{text: sym.Readably(nil, p)}
 		args = args[1:]
 	}
 	mo.sll = argsFromList(args[0], p)
 	args = args[1:]
-	if ss, ok := args[0].(slip.String); ok {
-		mo.doc = &Doc{text: string(ss), nl: true}
-		args = args[1:]
+	if 0 < len(args) {
+		if ss, ok := args[0].(slip.String); ok {
+			mo.doc = &Doc{text: string(ss), nl: true}
+			args = args[1:]
+		}
 	}
 	for _, v := range args {
 		mo.children = append(mo.children, buildNode(v, p))
